@@ -373,7 +373,15 @@ fn struct_init_block_inner(
                     }
                 };
                 fragments.push(fragment);
-                positions.push(designated.unwrap_or(idx + skipped));
+                positions.push(match (attrs.child(&ctx.struct_attr.ty), at_leaf) {
+                    // a nested struct stands where its path says
+                    (Some(child_attr), false) => match &child_attr.child_path.child_path[field_ctx.map_or(0, |x| x.2 + 1)] {
+                        Unnamed(index) => index.index as usize,
+                        Named(_) => idx + skipped,
+                    },
+                    // without a designated index a member of a struct stands for the member at its own position, like From reads it
+                    _ => designated.unwrap_or(if ctx.impl_type.is_variant() { idx } else { f.idx }),
+                });
                 idx += 1;
             },
             FieldData::GhostData(g) => {
